@@ -73,6 +73,13 @@ Theorem C08_wire_order_fresh : forall k nvs,
 Proof. exact wire_order_fresh. Qed.
 Print Assumptions C08_wire_order_fresh.
 
+(* Headers.parse as the message-parser model uses it (Model/Headers.v) is the state machine's parse step without the
+   partial state a failing call leaves behind *)
+Theorem C08_parse_models_agree : forall h d,
+  hparse h d = let '(h', ok) := hparse_st h None (split_all CRLF d) in if ok then Some h' else None.
+Proof. exact hparse_st_agree. Qed.
+Print Assumptions C08_parse_models_agree.
+
 (* ---- clause 3: serialising and parsing yields an equal collection ---- *)
 (* bytes(h) is the block of lines plus the terminating empty line; the message parser cuts there *)
 Theorem C08_compose_shape : forall h, hlines h <> [] -> hcompose h = hblock h ++ CRLF ++ CRLF.
